@@ -162,7 +162,10 @@ class ModelMixin2:
             c = s.new(ElemE(pe2.prov, None, p.sym, True, ('iterchild', S(p.sym)), schema=pe2.schema))
             self.hook('iter-child', s, None, parent=p, child=Ref('elem', c), live=live)
             return [(Ref('elem', c), s)]
-        return IterSpec(0, None, None, make, f'children({self.describe(p, st)})')
+        sp = IterSpec(0, None, None, make, f'children({self.describe(p, st)})')
+        if live:
+            sp.live_parent = p.sym
+        return sp
 
     def list_spec(self, v: Ref, st: State, node):
         from .model import IterSpec
@@ -395,6 +398,7 @@ class ModelMixin2:
                     outs.append((TupleV((counter(s2, k, elem), elem)), s2))
             return outs
         sp = IterSpec(inner.lo, inner.hi, None, make, f'enumerate({src_descr})', ordered=inner.ordered)
+        sp.live_parent = getattr(inner, 'live_parent', None)
         sp.adv = base_entry
         sp.listsym = getattr(inner, 'listsym', None)
         return sp
@@ -422,6 +426,11 @@ class ModelMixin2:
             st.mon['adv'] = adv
         logs[depth] = ()
         st.mon['itlog'] = logs
+        lp = getattr(spec, 'live_parent', None)
+        if lp is not None:
+            ld = dict(st.mon.get('livedepth') or {})
+            ld[depth] = lp
+            st.mon['livedepth'] = ld
 
     def adv_counter(self, st: State, base: IdxE, start: Ref, k, node):
         depth = (len(st.frames), st.frame.loops)
@@ -449,7 +458,7 @@ class ModelMixin2:
         pass
 
     def loop_done(self, st: State, depth):
-        for name in ('itlog', 'adv', 'advsym'):
+        for name in ('itlog', 'adv', 'advsym', 'livedepth'):
             m = st.mon.get(name)
             if m and depth in m:
                 m = dict(m)
